@@ -39,3 +39,35 @@ Proof.
     f_equal; [f_equal; [exact H1|now apply Hx]|now apply IHl].
   - apply Nat.eqb_eq in H. congruence.
 Qed.
+
+(* ---- the cache as a state machine: for EVERY history of calls, a lookup that compares keys with
+   their types returns what tracing the arguments afresh would return ---- *)
+Section CacheMachine.
+  Variable O : Type.
+  Variable trace : fv -> O.                      (* what tracing + compilation makes of the frozen arguments *)
+
+  Definition cache := list (fv * O).
+  Fixpoint lookup (typed : bool) (c : cache) (a : fv) : option O :=
+    match c with [] => None | (k, o) :: r => if key_eq typed k a then Some o else lookup typed r a end.
+  Definition call (typed : bool) (c : cache) (a : fv) : cache * O :=
+    match lookup typed c a with Some o => (c, o) | None => ((a, trace a) :: c, trace a) end.
+  Fixpoint run (typed : bool) (c : cache) (h : list fv) : list O :=
+    match h with [] => [] | a :: r => let '(c1, o) := call typed c a in o :: run typed c1 r end.
+
+  Definition sound (c : cache) : Prop := forall k o, In (k, o) c -> o = trace k.
+
+  Lemma lookup_sound c a o : sound c -> lookup true c a = Some o -> o = trace a.
+  Proof.
+    induction c as [|[k o1] r IH]; intros Hs H; [discriminate|]. cbn [lookup] in H. destruct (key_eq true k a) eqn:E.
+    - injection H as <-. apply typed_keys_separate in E. subst a. apply Hs. now left.
+    - apply IH; [|exact H]. intros k2 o2 Hin. apply Hs. now right.
+  Qed.
+
+  Theorem cache_transparent_for_every_history : forall h c, sound c -> run true c h = map trace h.
+  Proof.
+    induction h as [|a r IH]; intros c Hs; [reflexivity|]. cbn [run map]. unfold call.
+    destruct (lookup true c a) as [o|] eqn:E.
+    - rewrite (lookup_sound c a o Hs E). f_equal. now apply IH.
+    - f_equal. apply IH. intros k o [H|H]; [injection H as <- <-; reflexivity|now apply Hs].
+  Qed.
+End CacheMachine.
